@@ -703,9 +703,9 @@ def gen_c01(tier, rng):
 
 def gen_c16(tier, rng):
     cases = []
-    sizes = [0, 1, 1024, 1025, 2048, 2049, 3 * 1024, 4 * 1024 + 1, 8 * 1024, 8 * 1024 + 1, 12 * 1024]
+    sizes = [0, 1, 500, 1024, 1025, 1500, 2000, 2048, 2049, 3 * 1024, 4 * 1024 + 1, 5000, 5100, 8 * 1024, 8 * 1024 + 1, 12 * 1024]
     if tier == "quick":
-        sizes = [0, 1, 1024, 1025, 2049, 4 * 1024 + 1, 8 * 1024]
+        sizes = [0, 1, 1024, 1025, 1500, 2000, 2049, 4 * 1024 + 1, 5000, 5100, 8 * 1024]
     big = sorted({(1 << k) + d for k in range(10, 64) for d in (-1, 0, 1)} - {(1 << 63) + 1})
     for size in sizes:
         n = nchunks(size)
@@ -1011,6 +1011,11 @@ def gen_c19(tier, rng):
         cases.append(("serde", [5, fmt, 0, rng.randrange(0, 1 << 63)]))
         cases.append(("serde", [5, fmt, 0, M64]))
         cases.append(("serde", [5, fmt, 4]))
+        # io errors without a payload (bare kinds, raw OS errors): the message must still come back
+        for kc in range(0, 5):
+            cases.append(("serde", [6, fmt, 6, kc]))
+        for os_code in (1, 2, 5, 13, 21, 28, 32, 104):
+            cases.append(("serde", [6, fmt, 7, os_code]))
     return cases
 
 
@@ -1128,7 +1133,7 @@ PROPS["C11"] = Prop(
 # ------------------------------------------------------------------ C10 fault enumeration
 F_FAULT = Family("fault", "Run.RunFault", "run_fault", "holds_fault", lambda a, o: a[6] > 0)
 F_FAULT.shard_cases = 60
-OP_OBJECTS = {0: (1, 7, 8), 2: (1, 7), 3: (1, 4), 4: (1, 4), 5: (2, 6, 4), 6: (2, 6, 4), 7: (2, 6, 4), 8: (2, 6, 4),
+OP_OBJECTS = {0: (1, 7, 8), 1: (1, 7, 8), 9: (1, 7, 8), 2: (1, 7), 3: (1, 4), 4: (1, 4), 5: (2, 6, 4), 6: (2, 6, 4), 7: (2, 6, 4), 8: (2, 6, 4),
               10: (3, 5, 7), 11: (3, 5, 7), 12: (6, 7), 13: (6, 7), 14: (6, 2)}
 
 
@@ -1282,3 +1287,49 @@ PROPS["C14"] = Prop(
     "of one is decoded with the other (sync and fsm, all sinks). non-trivial = non-empty query",
     assumptions=["boundaries strictly sorted < 2^64, size <= 2^63"] + DEC_ASSUME,
 )
+
+
+# ------------------------------------------------------------------ short-writing sinks / short positioned reads
+F_SHORTW = Family("shortw", "Run.RunSched", "run_shortw", "holds_shortw", lambda a, o: a[2] > 1024)
+F_SHORTW.shard_cases = 40
+BIGCAP = 1 << 40
+
+
+def gen_shortw(tier, rng):
+    cases = []
+    sizes = [1025, 3 * 1024 + 5, 5 * 1024 + 7, 16 * 1024 + 1] if tier == "quick" else [1, 1024, 1025, 2049, 3 * 1024 + 5, 5 * 1024 + 7, 8 * 1024, 16 * 1024 + 1, 31 * 1024]
+    for size in sizes:
+        n = nchunks(size)
+        for bs in (0, 2, 4) if tier == "quick" else (0, 1, 2, 3, 4):
+            sd = seed(rng)
+            for q in std_queries(n, rng, 1)[: (3 if tier == "quick" else 8)]:
+                if not q:
+                    continue
+                for maxw in (1, 63, 1000, 4096) if tier == "thorough" else (rng.choice([1, 63, 1000]), 4096):
+                    ok = rng.randrange(0, 4)
+                    cases.append(("shortw", [0, sd, size, bs, 0, maxw, BIGCAP, ok] + q))
+                    cases.append(("shortw", [0, sd, size, bs, 1, maxw, BIGCAP, ok] + q))
+                    # a sink that fills up: WriteZero after exactly cap bytes
+                    cases.append(("shortw", [0, sd, size, bs, 0, maxw, rng.randrange(0, size + 200), ok] + q))
+                    # stores that return short positioned reads (page sizes not aligned to 64)
+                    cases.append(("shortw", [0, sd, size, bs, 3, rng.choice([1, 7, 63, 100, 1000, 4096]), BIGCAP, rng.randrange(0, 2)] + q))
+                    cases.append(("shortw", [0, sd, size, bs, 4, rng.choice([7, 100, 1000]), BIGCAP, rng.randrange(0, 2)] + q))
+            for maxw in (1, 31, 32, 33, 64, 1000):
+                cases.append(("shortw", [0, sd, size, bs, 2, maxw, BIGCAP, 0]))
+                cases.append(("shortw", [0, sd, size, bs, 2, maxw, rng.randrange(0, 64 * n + 1), 0]))
+    return cases
+
+
+_c11 = PROPS["C11"]
+PROPS["C11"] = Prop(
+    [F_SCHED, F_SHORTW], lambda tier, rng: gen_sched(tier, rng, False) + gen_shortw(tier, rng),
+    _c11.rule + " shortw: the sync encoders and outboard_post_order writing into sinks that accept at most 1 / 31..33 / 63 / 64 / 1000 / 4096 bytes per "
+    "call (and sinks that fill up after a chosen number of bytes), and the sync validating encoder / validator reading an io-backed outboard and the data "
+    "through stores whose positioned reads never cross a page boundary (page sizes 1, 7, 63, 100, 1000, 4096).",
+    trusted=_c11.trusted, assumptions=_c11.assumptions)
+_c10 = PROPS["C10"]
+PROPS["C10"] = Prop(
+    [F_FAULT, F_SCHED, F_SHORTW], lambda tier, rng: gen_c10(tier, rng) + gen_shortw(tier, rng)[::3],
+    _c10.rule + " Also CreateOutboard::init_from of the io-backed pre / post order outboards over a logging byte store (positioned writes and flush), and sinks "
+    "that stop accepting bytes (Ok(0) -> WriteZero).",
+    trusted=_c10.trusted, assumptions=_c10.assumptions)
